@@ -79,7 +79,7 @@ def rule_ragged_pair(ctx, tu):
         if sub is None:
             continue
         a = repr(cxa.poly(sub[1]))
-        if s.base[1] == "mesh_neighbor_n" and s.op == "++":
+        if s.base[1] == "mesh_neighbor_n" and (s.op == "++" or (s.op == "+=" and cxa.const_int(s.rhs) == 1)):
             inc[a] = inc.get(a, 0) + 1
         elif s.how == "method" and s.op == "push_back":
             push.setdefault(s.base[1], {}).setdefault(a, 0)
@@ -393,6 +393,25 @@ def rule_sentinel(ctx, tu, I):
     ctx.floor(R, 6)
 
 
+def rule_static(ctx, tu):
+    """a function-local static container is sized once per process: a later simulation with larger extents indexes
+    it out of bounds"""
+    R = "C11.STATIC"
+    n_ok = 0
+    for f in tu.all_fns():
+        if f.body is None:
+            continue
+        for n in walk(f.body):
+            if n.get("kind") == "VarDecl" and n.get("storageClass") == "static":
+                t = n.get("type", {}).get("qualType", "")
+                if t.startswith("const "):
+                    continue
+                ctx.violation(R, n, f.qual, text(n)[:80], "function-local static object: it is constructed (sized) once per "
+                              "process, so a later simulation with other extents reads / writes outside it")
+        n_ok += 1
+    ctx.ok(R, None, "engine", "%d functions without mutable function-local statics" % n_ok, nontrivial=False)
+
+
 def rule_dtor(ctx, tu):
     R = "C11.DTOR"
     for c in tu.classes.values():
@@ -459,6 +478,7 @@ def run(ctx):
     rule_guard_order(ctx, tu)
     rule_poisson(ctx, tu)
     rule_sentinel(ctx, tu, I)
+    rule_static(ctx, tu)
     rule_dtor(ctx, tu)
     rule_init(ctx, tu)
     from .. import ffi
